@@ -10,6 +10,7 @@ package helpers
 //@ pure opaque chunkLo(n int, t int, i int) int = i * chunkM(n, t) - ite(i > chunkF(n, t), i - chunkF(n, t), 0)
 
 //@ func ChunkSlice
+//@ params slice chunks
 //@ props C09
 //@ reveal chunkLo chunkM chunkF
 //@ domain 1 <= chunks && chunks <= len(slice) && len(slice) <= 65536
@@ -34,6 +35,7 @@ package helpers
 //@ pure opaque isMeta(data int) bool = upred("refl.isvalid", uninterp("refl.field", uninterp("refl.valueof", data), "Key")) && (hasprefix(str(uninterp("refl.bytes", uninterp("refl.field", uninterp("refl.valueof", data), "Key"))), Prefix) || hasprefix(str(uninterp("refl.bytes", uninterp("refl.field", uninterp("refl.valueof", data), "Key"))), TxnPrefix))
 
 //@ func IsMetadata
+//@ params data
 //@ props C14 C03
 //@ reveal isMeta
 //@ ensures.prefix[C14,C03] result == isMeta(data)
@@ -50,6 +52,7 @@ package helpers
 //@ pure resolveUnion(input any) int = ite(typeis(input, int), as(input, int), ite(typeis(input, uint), ite(as(input, uint) > 9223372036854775807, as(input, uint) - 18446744073709551616, as(input, uint)), ite(typeis(input, string), ite(parseintok(as(input, string), 10, 64), parseint(as(input, string), 10, 64), sizeBytes(as(input, string))), 0)))
 
 //@ func convertSizeUnitToByte
+//@ params str
 //@ props C17
 //@ ensures.reject[C17] (result1 != nil) == sizeBad(str)
 //@ ensures.rejected_zero[C17] result1 != nil ==> result0 == 0
@@ -58,6 +61,7 @@ package helpers
 //@ modifies nothing
 
 //@ func ResolveUnionIntOrStringValue
+//@ params input
 //@ props C17
 //@ domain logger.Log != nil
 //@ ensures.value[C17] result == resolveUnion(input)
